@@ -54,7 +54,17 @@ class ExprMixin:
         s.add(z3.Not(fact))
         return s.check() == z3.unsat
 
+    IMPLICIT = {"key": "KeyError", "index": "IndexError", "none": "AttributeError", "attr": "AttributeError",
+                "type": "TypeError", "div0": "ZeroDivisionError", "unpack": "TypeError"}
+
     def safe(self, path, what, goal, node):
+        exc = self.IMPLICIT.get(what)
+        c = self.cur_contract
+        if exc is not None and c is not None and self.frame_depth == 0 and exc in c.raises and not c.raise_frame_empty:
+            # the contract allows this implicit exception: the raising executions end here (nothing to show),
+            # the analysis continues with the executions where the operation succeeds
+            path.assume(goal if not path.guards else sv.Implies(sv.And(*path.guards), goal))
+            return
         self.oblige(path, "safe:" + what, goal, node)
 
     def definite_error(self, path, what, node, msg=""):
@@ -774,6 +784,56 @@ class ExprMixin:
         nd.fresh = getattr(d, "fresh", False)
         return nd
 
+    def dict_merge(self, d, other, path):
+        """d.update(other): union of the domains, values of `other` win.  The key order of the result is abstracted
+        (some enumeration without repetition), which over-approximates Python's insertion order."""
+        items = getattr(other.keys, "items", None)
+        if items is not None and len(items) <= 6 and getattr(other, "fresh", False):
+            r = d
+            for k in items:
+                r = self.dict_set(r, k, other.val(self.key_expr(k)))
+            return r
+        ks = getattr(d, "ksort", None)
+        if ks is None:
+            ks = getattr(other, "ksort", None)
+        if ks is None:
+            raise Unsupported("dict.update with unknown key sort")
+        tag = sv.uid("upd")
+        keyf = z3.Function(tag + ".key", sv.IntS, ks)
+        idxf = z3.Function(tag + ".idx", ks, sv.IntS)
+        n = z3.Int(tag + ".len")
+        dom = lambda k, d=d, other=other: sv.Or(d.dom(k), other.dom(k))
+        val = lambda k, d=d, other=other: sv.ite(other.dom(k), other.val(k), d.val(k))
+        kwrap = d.kwrap or other.kwrap
+        keys = sv.SList(n, lambda i, keyf=keyf, kwrap=kwrap: kwrap(keyf(i)), fresh=True)
+        nd = sv.SDict(keys, dom, val, lambda k, idxf=idxf: idxf(k), kwrap)
+        nd.ksort = ks
+        i, k = z3.Int(tag + ".i"), z3.Const(tag + ".k", ks)
+        path.assume(n >= 0)
+        path.assume(z3.ForAll([i], sv.Implies(sv.And(0 <= i, i < n), sv.And(dom(keyf(i)), idxf(keyf(i)) == i)), patterns=[keyf(i)]))
+        path.assume(z3.ForAll([k], sv.Implies(dom(k), sv.And(0 <= idxf(k), idxf(k) < n, keyf(idxf(k)) == k)), patterns=[idxf(k)]))
+        return nd
+
+    def dict_filter(self, d, pred, path, valmap=None):
+        """{k: v for k, v in d.items() if P(k, v)} over a symbolic dict (key order abstracted)"""
+        ks = getattr(d, "ksort", None)
+        if ks is None:
+            raise Unsupported("dict comprehension over a dict of unknown key sort")
+        tag = sv.uid("dflt")
+        keyf = z3.Function(tag + ".key", sv.IntS, ks)
+        idxf = z3.Function(tag + ".idx", ks, sv.IntS)
+        n = z3.Int(tag + ".len")
+        dom = lambda k, d=d, pred=pred: sv.And(d.dom(k), pred(k))
+        val = d.val if valmap is None else valmap
+        keys = sv.SList(n, lambda i, keyf=keyf, d=d: d.kwrap(keyf(i)), fresh=True)
+        nd = sv.SDict(keys, dom, val, lambda k, idxf=idxf: idxf(k), d.kwrap)
+        nd.ksort = ks
+        i, k = z3.Int(tag + ".i"), z3.Const(tag + ".k", ks)
+        path.assume(sv.And(n >= 0, n <= d.keys.n))
+        path.assume(z3.ForAll([i], sv.Implies(sv.And(0 <= i, i < n), sv.And(dom(keyf(i)), idxf(keyf(i)) == i)), patterns=[keyf(i)]))
+        path.assume(z3.ForAll([k], sv.Implies(dom(k), sv.And(0 <= idxf(k), idxf(k) < n, keyf(idxf(k)) == k)), patterns=[idxf(k)]))
+        return nd
+
     def empty_set(self):
         s = sv.SSet(lambda k: z3.BoolVal(False), z3.IntVal(0), None)
         s.fresh = True
@@ -823,7 +883,9 @@ class ExprMixin:
             sq.set_src = (it, elem, idx)
             return sq
         if isinstance(it, sv.SUnion):
-            raise Unsupported("iteration over a value that may be None", node)
+            # iterating None raises TypeError: that alternative becomes a safety obligation
+            it2 = self.expect(it, (sv.SList, sv.SDict, sv.SSet, sv.STup), path, node, what="none")
+            return self.as_sequence(it2, path, node)
         r = self.lib_sequence(it, path, node)
         if r is not None:
             return r
